@@ -46,7 +46,7 @@ PROPS = ["C04_dim_is_shape", "C04_xls_sheet_dim", "C04_bytes_stream", "C04_metad
          "C04_props_unchanged_rtf", "C04_props_unchanged_rtf_refuted", "C04_rtf_simple_utf8able", "C04_rtf_simple_utf8able_refuted",
          "C04_rtf_simple_raises_only_digits", "C04_rtf_simple_total_refuted", "C04_props_summary_ole", "C04_xls_summary_total",
          "C04_xls_summary_total_refuted", "C04_props_unchanged_xlsx", "C04_archive_member_metadata",
-         "C04_image_metadata_views_agree"]
+         "C04_image_metadata_views_agree", "C04_epub_unit_numbers"]
 INST = ["C04_odf_overflow_unguarded", "C04_rtf_tables_wf", "C04_rtf_surrogate_unrepaired",
         "C04_rtf_ctypes_wf", "C04_image_decls", "C04_archive_member_path"]
 INST_FIXED = ["C04_odf_guarded", "C04_odf_overflow_witness", "C04_rtf_repaired", "C04_rtf_surrogate_witness", "C04_path_guarded",
@@ -271,7 +271,7 @@ def gen_tables(ctx):
                 spaces=spaces, decimals=decimals)
 
 
-PRE = ("From S2T Require Import Lib.PyStr C04.Model C04.ModelFloat C04.ModelPath C04.ModelRtf C04.ModelMeta C04.ModelRtfText C04.ModelSummary C04.ModelImeta C04.Corr "
+PRE = ("From S2T Require Import Lib.PyStr C04.Model C04.ModelFloat C04.ModelPath C04.ModelRtf C04.ModelMeta C04.ModelRtfText C04.ModelSummary C04.ModelImeta C04.ModelEpub C04.Corr "
        "Gen.C04Tables.\nFrom Coq Require Import List NArith ZArith.\nImport ListNotations.\nOpen Scope N_scope.\n")
 
 
@@ -1044,7 +1044,22 @@ def exercise(ctx, r, origin, path_arg, replay, utf8_key=None, check_size=True, s
         if got != want:
             bad("path-metadata", f"{cls}.get_metadata", f"path argument {str(path_arg)!r:.80}: (filename, extension, folder_path, file_path) = "
                 f"{got!r:.200} expected {want!r:.200}")
-    call(r, "to_json")
+    okj, js = call(r, "to_json")
+    if okj:
+        # every string of the JSON form must be well-formed Unicode (a UTF-8 JSON file could not hold it otherwise)
+        stack, n_seen = [("", js)], 0
+        while stack and n_seen < 20000:
+            where, v = stack.pop()
+            n_seen += 1
+            if isinstance(v, str):
+                if not utf8_ok(v):
+                    bad("not-utf8", f"{cls}.to_json", f"lone surrogate in the string at {where or '<root>'}: {v[:40]!r}")
+                    break
+            elif isinstance(v, dict):
+                stack.extend((f"{where}.{k_}", x) for k_, x in v.items())
+                stack.extend((f"{where}.<key>", k_) for k_ in v if isinstance(k_, str))
+            elif isinstance(v, (list, tuple)):
+                stack.extend((f"{where}[{i_}]", x) for i_, x in enumerate(v))
     ctx.case((origin, cls, n_acc), n_acc > 1, kind=f"sweep:{origin.split(':')[0]}:{cls}")
 
 
@@ -1305,6 +1320,94 @@ def run_doc_captions(ctx, s2t, res):
                    f"only {reached} hostile labels arrived as captions (text offset {off})")
 
 
+def run_empty_alt_docs(ctx, s2t, res):
+    """ODF picture frames whose svg:title / svg:desc elements are present but empty (<svg:desc/>, <svg:title></svg:title>),
+    with and without a draw:name: type-level contract of the text accessors (str, never None)."""
+    forms = [("<svg:title/>", "<svg:desc/>"), ("<svg:title></svg:title>", ""), ("", "<svg:desc></svg:desc>"), ("<svg:title/>", "<svg:desc>alt</svg:desc>"),
+             ("<svg:title>t</svg:title>", "<svg:desc/>")]
+    for rel, reader in (("open_office/image_extraction.odt", s2t.read_odt), ("open_office/image_extraction.odp", s2t.read_odp),
+                        ("open_office/image_extraction.ods", s2t.read_ods), ("open_office/drawing.odg", s2t.read_odg)):
+        src = res / rel
+        if not src.exists():
+            continue
+        for k, (ti, de) in enumerate(forms):
+            for keep_name in (True, False):
+                def sub(d, ti=ti, de=de, keep_name=keep_name):
+                    x = d.decode("utf-8")
+                    if not keep_name:
+                        x = re.sub(r'\sdraw:name="[^"]*"', "", x)
+                    x = re.sub(r"<svg:title\b[^>]*/>|<svg:title\b[^>]*>.*?</svg:title>|<svg:desc\b[^>]*/>|<svg:desc\b[^>]*>.*?</svg:desc>", "", x, flags=re.S)
+                    x = re.sub(r"(<draw:image\b[^>]*/>)", lambda m: m.group(1) + ti + de, x)
+                    x = re.sub(r"(<draw:image\b[^>/]*>.*?</draw:image>)", lambda m: m.group(1) + ti + de, x, flags=re.S)
+                    return x.encode("utf-8")
+                try:
+                    results = list(reader(io.BytesIO(rewrite_zip(src, {"content.xml": sub})), path=None))
+                except Exception:  # noqa
+                    ctx.count("hostile:rejected")
+                    continue
+                for r in results:
+                    exercise(ctx, r, f"hostile-empty-alt:{Path(rel).suffix}", None,
+                             {"base_file": rel, "how": f"every frame gets {ti!r}{de!r} after its draw:image; draw:name kept: {keep_name}", "call": reader.__name__})
+
+
+def run_read_file_paths(ctx, s2t):
+    """read_file glue: files that exist under hostile names (decomposed NFD / composed NFC letters, Hangul jamo, spaces,
+    several dots, upper-case extension) inside such directories, opened through read_file with str and Path arguments,
+    absolute and relative to the working directory: the metadata is that of the path argument as given."""
+    import shutil
+    import tempfile
+    import unicodedata
+    names = ["Cafe\u0301 notes.txt", "Caf\u00e9 notes.txt", "\u1112\u1161\u11ab\u1100\u1173\u11af.txt", "\ud55c\uae00.txt", "a b  c.txt", "v1.2.final.TXT",
+             "\u00c5ngstro\u0308m.md", "\u212b.csv", "\ufb01le.txt", "plain.txt"]
+    dirs = ["", "de\u0301p\u00f4t", "sub dir/x\u0323\u0307"]
+    cwd0 = os.getcwd()
+    td = tempfile.mkdtemp(prefix="c04-rf-", dir="/var/tmp")
+    try:
+        for d in dirs:
+            os.makedirs(os.path.join(td, d), exist_ok=True)
+            for n in names:
+                with open(os.path.join(td, d, n), "w", encoding="utf-8") as fh:
+                    fh.write(f"text of {unicodedata.normalize('NFC', n)}")
+        os.chdir(td)
+        for d in dirs:
+            for n in names:
+                rel = os.path.join(d, n) if d else n
+                for label, arg in (("abs-str", os.path.join(td, rel)), ("rel-str", rel), ("abs-Path", Path(td) / rel), ("rel-dot", "./" + rel)):
+                    try:
+                        results = list(s2t.read_file(arg))
+                    except Exception as e:  # noqa
+                        ctx.finding(f"read_file-raises:{type(e).__name__}", f"read_file({str(arg)!r:.80}) raises {e!r:.160} for an existing file",
+                                    {"name": n, "dir": d, "argument_form": label})
+                        continue
+                    for r in results:
+                        exercise(ctx, r, f"read_file-path:{label}", str(arg),
+                                 {"file_name": n, "directory": d, "argument_form": label,
+                                  "how": "a temp dir holds files under these exact (not normalised) names; read_file(argument)"})
+    finally:
+        os.chdir(cwd0)
+        shutil.rmtree(td, ignore_errors=True)
+
+
+def run_mail_docs(ctx, s2t):
+    """E-mails whose headers / bodies are encoded so that a permissive codec yields lone surrogates (UTF-7 '+2AA-',
+    CESU-style UTF-8, utf-16 halves)."""
+    subj = ["=?utf-7?Q?+2AA-?=", "=?utf-7?B?KzJBQS0=?=", "=?utf-8?B?7aCA?=", "=?utf-16-le?B?ANg=?=", "=?utf-8?Q?caf=C3=A9_=F0=9F=98=80?=", "plain"]
+    for k, s_ in enumerate(subj):
+        for cs, body in (("utf-7", b"Hello +2AA- world"), ("utf-8", b"Hello \xed\xa0\x80 world"), ("us-ascii", b"Hello")):
+            eml = (b"From: =?utf-7?Q?+2AA-?= <a@b.c>\r\nTo: d@e.f\r\nSubject: " + s_.encode("ascii") + b"\r\nMIME-Version: 1.0\r\nContent-Type: text/plain; charset="
+                   + cs.encode() + b"\r\n\r\n" + body + b"\r\n")
+            for name, reader, data in (("eml", s2t.read_email__eml_format, eml),
+                                       ("mbox", s2t.read_email__mbox_format, b"From a@b.c Thu Jan  1 00:00:00 2020\r\n" + eml + b"\r\n")):
+                try:
+                    results = list(reader(io.BytesIO(data), path=None))
+                except Exception:  # noqa
+                    ctx.count("hostile:rejected")
+                    continue
+                for r in results:
+                    exercise(ctx, r, f"hostile-mail:{name}", None, {"message_bytes": data, "call": reader.__name__},
+                             utf8_key="mail-permissive-codec-lone-surrogate")
+
+
 def run_archives(ctx, s2t, res):
     """Generated ZIP / TAR / TAR.GZ archives whose member names come from a hostile grammar (relative, ./, nested, //,
     ABSOLUTE, unicode, spaces, '!' inside) x archive path arguments: the metadata of every member result is that of the
@@ -1391,6 +1494,12 @@ def make_epub(spine, extra_manifest=()):
     seen = set()
     for k, (iid, attrs, kind) in enumerate(spine):
         a = "".join(f' {k_}="{v}"' for k_, v in attrs.items())
+        if kind == "noid":
+            refs.append(f"<itemref{a}/>")
+            continue
+        if kind == "emptyid":
+            refs.append(f'<itemref idref=""{a}/>')
+            continue
         refs.append(f'<itemref idref="{iid}"{a}/>')
         if iid in seen or kind == "missing":
             continue
@@ -1436,7 +1545,7 @@ def epub_corpus(ctx):
     rng = ctx.rng
     lin = [{}, {"linear": "yes"}, {"linear": "no"}, {"linear": "NO"}, {"linear": " no "}, {"linear": "maybe"}, {"properties": "page-spread-left"},
            {"id": "ref1", "linear": "no"}]
-    kinds = ["xhtml", "xhtml", "xhtml", "empty", "missing", "image", "dup"]
+    kinds = ["xhtml", "xhtml", "xhtml", "empty", "missing", "image", "dup", "noid", "emptyid"]
     out = []
     for a in lin:                                     # the attribute form at the head, in the middle, at the end
         out.append([("cover", a, "xhtml"), ("c1", {}, "xhtml"), ("c2", {}, "xhtml")])
@@ -1455,7 +1564,34 @@ def epub_corpus(ctx):
     return out
 
 
+def epub_loop_obligation(ctx):
+    """Fail closed when read_epub's numbering loop leaves the modelled shape:
+       chapter_number = 0; for item_id in ctx.spine: chapter_number += 1 (first statement, unconditional); …"""
+    from sharepoint2text.parsing.extractors import epub_extractor as ex
+    fn = ast.parse(textwrap.dedent(inspect.getsource(ex.read_epub))).body[0]
+    loops = [n for n in ast.walk(fn) if isinstance(n, ast.For) and isinstance(n.iter, ast.Attribute) and n.iter.attr == "spine"]
+    why = ""
+    if len(loops) != 1:
+        why = f"{len(loops)} loops over ctx.spine"
+    else:
+        first = loops[0].body[0]
+        if not (isinstance(first, ast.AugAssign) and isinstance(first.op, ast.Add) and getattr(first.target, "id", "") == "chapter_number"
+                and isinstance(first.value, ast.Constant) and first.value.value == 1):
+            why = "the loop does not start with `chapter_number += 1`: " + ast.dump(first)[:160]
+        inits = [n for n in ast.walk(fn) if isinstance(n, ast.Assign) and any(getattr(x, "id", "") == "chapter_number" for x in n.targets)]
+        if not why and not (len(inits) == 1 and isinstance(inits[0].value, ast.Constant) and inits[0].value.value == 0):
+            why = "chapter_number is not initialised exactly once with 0"
+        others = [n for n in ast.walk(fn) if isinstance(n, ast.AugAssign) and getattr(n.target, "id", "") == "chapter_number"]
+        if not why and len(others) != 1:
+            why = f"{len(others)} updates of chapter_number"
+    ctx.obligation("ast:read_epub numbers chapters by spine position (chapter_number = 0; += 1 first in the spine loop)", not why, why)
+
+
 def run_epubs(ctx, s2t):
+    from sharepoint2text.parsing.extractors import epub_extractor as ex
+    epub_loop_obligation(ctx)
+    opf_itemref = "{%s}itemref" % ex.NS["opf"]
+    terms, infos = [], []
     for k, spine in enumerate(epub_corpus(ctx)):
         data = make_epub(spine)
         try:
@@ -1464,8 +1600,26 @@ def run_epubs(ctx, s2t):
             ctx.count("hostile:rejected")
             continue
         for r in results:
+            # which spine items produced a chapter (oracle) and the numbers they got
+            got = []
+            for ch in r.iterate_units():
+                m = re.search(r"Body text of (\w+), item", ch.get_text()) or re.search(r"Title of (\w+)", ch.get_text())
+                got.append((m.group(1) if m else "?", ch.get_metadata().unit_number))
+            if all(i != "?" for i, _ in got):
+                children = coq_list([pair(cstr(opf_itemref), "None" if kd == "noid" else "(Some " + cstr("" if kd == "emptyid" else i) + ")")
+                                     for i, a, kd in spine])
+                prod = coq_list([cstr(i) for i in dict.fromkeys(i for i, _ in got)])
+                terms.append(pair(children, prod, coq_list([pair(cstr(i), Zs(n_)) for i, n_ in got])))
+                infos.append(spine)
+                # property oracle: the number is the 1-based position of a spine entry with that id
+                ids = [i for i, a, kd in spine if kd not in ("noid", "emptyid")]
+                for i, n_ in got:
+                    if not (isinstance(n_, int) and 1 <= n_ <= len(ids) and ids[n_ - 1] == i):
+                        ctx.finding("epub-unit-number-not-spine-position", f"EPUB chapter of spine item {i!r} has unit_number {n_!r}; spine ids are {ids!r}",
+                                    {"spine": [(i_, a, kd) for i_, a, kd in spine], "how": "tools/props/c04.py make_epub(spine)"})
             exercise(ctx, r, "generated-epub", None,
                      {"spine": [(i, a, kd) for i, a, kd in spine], "how": "tools/props/c04.py make_epub(spine)", "call": "read_epub"})
+    corr(ctx, "epub_unit_numbers", f"(epub_units_case {cstr(opf_itemref)})", terms, infos, "list spine_child * list str * list (str * Z)")
 
 
 def odf_with_picture_extension(src: Path, ext: str) -> bytes:
@@ -1603,6 +1757,9 @@ def run_hostile_docs(ctx):
     import sharepoint2text as s2t
     res = common.REPO / "sharepoint2text" / "tests" / "resources"
     run_label_docs(ctx, s2t, res)
+    run_empty_alt_docs(ctx, s2t, res)
+    run_read_file_paths(ctx, s2t)
+    run_mail_docs(ctx, s2t)
     run_epubs(ctx, s2t)
     run_doc_captions(ctx, s2t, res)
     cterms, cinfos = run_archives(ctx, s2t, res)
@@ -1658,6 +1815,29 @@ def run_hostile_docs(ctx):
             exercise(ctx, r, f"hostile-damaged-image:{Path(rel).suffix}", None,
                      {"base_file": rel, "damage": "bytes 8..40 of the compressed data of the first two image members xor 0x5A",
                       "call": reader.__name__}, check_size=True)
+    # XLSX pictures whose drawing extent is 0 and whose bytes carry no usable raster size
+    src = res / "modern_ms" / "image_in_excel.xlsx"
+    if src.exists():
+        for tag, media in (("vector-bytes", b"\x01\x00\x00\x00 vector picture without a raster header"), ("empty", b""),
+                           ("png-zero-size", _tiny_png()[:16] + bytes(8) + _tiny_png()[24:]), ("tiny-png", _tiny_png())):
+            out = io.BytesIO()
+            with zipfile.ZipFile(src) as zin, zipfile.ZipFile(out, "w", zipfile.ZIP_DEFLATED) as zo:
+                for it in zin.infolist():
+                    d = zin.read(it.filename)
+                    if it.filename.startswith("xl/drawings/") and it.filename.endswith(".xml"):
+                        d = re.sub(r'c([xy])="\d+"', r'c\1="0"', d.decode("utf-8")).encode("utf-8")
+                    if it.filename.startswith("xl/media/"):
+                        d = media
+                    zo.writestr(it, d)
+            try:
+                results = list(s2t.read_xlsx(io.BytesIO(out.getvalue()), path=None))
+            except Exception:  # noqa
+                ctx.count("hostile:rejected")
+                continue
+            for r in results:
+                exercise(ctx, r, f"hostile-xlsx-picture:{tag}", None,
+                         {"base_file": "modern_ms/image_in_excel.xlsx", "how": "every cx/cy in xl/drawings/*.xml set to 0 and every xl/media/* "
+                          f"replaced by {media[:24]!r}...", "call": "read_xlsx"}, check_size=True)
     # stored document properties reach the metadata object unchanged (end to end through the XML parser)
     from xml.sax.saxutils import escape
     n_docs = len(HOSTILE_VALUES)
@@ -1702,6 +1882,21 @@ def run_hostile_docs(ctx):
                    escape(want["description"], {'"': "&quot;"}))).encode("utf-8")
         check_props(ctx, s2t.read_html, html, "generated.html", tag, want, ("title", "author", None, "keywords", "description"),
                     trimmed_ok=("title",), collapsed_ok=("title",), sweep=sweep)
+        # the same properties in documents that use HTML's optional tags differently (no <head>, no <html>, upper case,
+        # title after the metas, doctype, body-less)
+        if k % 4 == 0:
+            ti, au, kw, de = (escape(want["title"]), escape(want["author"], {'"': "&quot;"}), escape(want["keywords"], {'"': "&quot;"}),
+                              escape(want["description"], {'"': "&quot;"}))
+            metas = f'<meta name="author" content="{au}"><meta name="keywords" content="{kw}"><meta name="description" content="{de}">'
+            skeletons = [f"<!DOCTYPE html><meta charset=utf-8><title>{ti}</title>{metas}<p>x</p>",
+                         f"<html><title>{ti}</title>{metas}<body><p>x</p></body></html>",
+                         f"<title>{ti}</title>{metas}<p>x</p>",
+                         f"<HTML><HEAD>{metas}<TITLE>{ti}</TITLE></HEAD><BODY><P>x</P></BODY></HTML>",
+                         f"<!doctype html><html lang=en><head>{metas}<title>{ti}</title></head><p>x</p>",
+                         f"<html><head><title>{ti}</title>{metas}</head><body><svg><title>tooltip</title></svg><p>x</p></body></html>"]
+            for j, doc in enumerate(skeletons):
+                check_props(ctx, s2t.read_html, doc.encode("utf-8"), f"generated-skeleton-{j}.html", tag, want,
+                            ("title", "author", None, "keywords", "description"), trimmed_ok=("title",), collapsed_ok=("title",), sweep=False)
         # EPUB: rewrite the dc: elements of the OPF of the sample
         src = res / "epub" / "sample.epub"
         if src.exists():
@@ -2316,7 +2511,7 @@ def run(ctx):
     inventory_obligation(ctx)
     import time as _t
     _t0 = _t.time()
-    ctx.prove("C04/Props.v", ["C04/Proofs.vo", "C04/ProofsPath.vo", "C04/ProofsRtf.vo", "C04/ProofsMeta.vo", "C04/ProofsRtfText.vo", "C04/ModelSummary.vo", "C04/ProofsImeta.vo"], expected=PROPS)
+    ctx.prove("C04/Props.v", ["C04/Proofs.vo", "C04/ProofsPath.vo", "C04/ProofsRtf.vo", "C04/ProofsMeta.vo", "C04/ProofsRtfText.vo", "C04/ModelSummary.vo", "C04/ProofsImeta.vo", "C04/ProofsEpub.vo"], expected=PROPS)
     ctx.prove("C04/Inst.v", ["Gen/C04Tables.vo", "C04/Corr.vo", "C04/ProofsRtf.vo"], expected=INST)
     ctx.prove("C04/InstFixed.v", ["C04/Inst.vo"], expected=INST_FIXED)
     ctx.extra["prove_s"] = round(_t.time() - _t0, 1)
